@@ -20,7 +20,13 @@ func (fr *Frame) exec(in ssa.Instruction, st *State) error {
 	case *ssa.Alloc:
 		elem := x.Type().(*types.Pointer).Elem()
 		if fr.heapCell[x] {
-			r := c.newRef("new_" + x.Comment)
+			var akey string
+			if arr, ok := elem.Underlying().(*types.Array); ok {
+				akey = elemKey(c.sortOf(arr.Elem()))
+			} else {
+				akey = heapKey(c.sortOf(elem))
+			}
+			r := c.newRefIn("new_"+x.Comment, akey)
 			c.privateRefs = append(c.privateRefs, privRef{r, x, fr})
 			fr.markEscaped(x)
 			l := c.ptrLVal(r, elem)
@@ -174,9 +180,9 @@ func (fr *Frame) exec(in ssa.Instruction, st *State) error {
 		ln, cp := fr.idxTerm(x.Len, st), fr.idxTerm(x.Cap, st)
 		z := c.sc.idxLit(0)
 		fr.safetyOb("make-len", "", and(c.le(z, ln), c.le(ln, cp)), x.Pos(), "make([]T, len, cap): 0 <= len <= cap")
-		r := c.newRef("mkslice")
 		et := x.Type().Underlying().(*types.Slice).Elem()
 		es := c.sortOf(et)
+		r := c.newRefIn("mkslice", elemKey(es))
 		k := c.regElem(es)
 		zarr := c.zeroArray(et)
 		st.set(k, c.sc.define("elems", sto(c.get(st, k), r, zarr)))
@@ -369,6 +375,7 @@ func (fr *Frame) execUnOp(x *ssa.UnOp, st *State) error {
 		d := c.sc.define(x.Name(), v)
 		if l.kind != rkLocal {
 			c.wellFormed(d, x.Type())
+			c.noteValueRefs(d, x.Type())
 		}
 		fr.setVal(x, d)
 		return nil
@@ -634,6 +641,7 @@ func (c *FuncCtx) shiftCount(b Term, tb types.Type, w int) Term {
 func (fr *Frame) execIndexAddr(x *ssa.IndexAddr, st *State) error {
 	c := fr.c
 	i := fr.idxTerm(x.Index, st)
+	c.noteIndexTerm(i)
 	z := c.sc.idxLit(0)
 	switch t := x.X.Type().Underlying().(type) {
 	case *types.Slice:
